@@ -261,6 +261,18 @@ class BaseSection(base.Sectionable):
 
         # raises exception if path cannot be found
         new_section = self.get_section_by_path(new_value)
+
+        # There is no rollback once the former link has been unresolved: make sure
+        # the new target can be merged before anything is changed. If a former link
+        # is resolved, the check is run on a copy with that link unresolved.
+        probe = self
+        if self._link is not None and self._merged is not None:
+            probe = self.clone(keep_id=True)
+            probe._link = None
+            probe.clean()
+        probe.merge_check(new_section, strict=False)
+        probe._merge_name_check(new_section)
+
         if self._link is not None:
             self.clean()
         self._link = new_value
